@@ -61,6 +61,12 @@ def wrapper_cases(tier, seed):
             out.append(("w%d" % len(out), b, "bsolve %d %s %d %s %s" % (b, v, n + 2, fmt_crs(n, n, rows), fmt_vec(f)), "full", n, rows, f))
             if v != "direct":
                 out.append(("w%d" % len(out), b, "bsolve %d %s %d %s %s" % (b, v, r.choice([1, 2, 3]), fmt_crs(n, n, rows), fmt_vec(f)), "trunc", n, rows, f))
+            if v == "mbs":
+                # the same matrix listed with its trailing rows in descending column order (leading rows sorted): make_block_solver
+                # has to see the same entries whatever the listing (seeded C13-5: a sortedness test that looks at the first n/b rows only)
+                s0 = r.randint(max(1, n // b), n - 1)
+                tail = [list(rw) if i < s0 else list(reversed(rw)) for i, rw in enumerate(rows)]
+                out.append(("w%d" % len(out), b, "bsolve %d %s %d %s %s" % (b, v, n + 2, fmt_crs(n, n, tail), fmt_vec(f)), "full", n, rows, f))
     return out
 
 
